@@ -69,7 +69,9 @@ def run(prop):
         lock = os.path.join(crate, "Cargo.lock")
         if needs_lock:
             shutil.copyfile(os.path.join(REPO, "Cargo.lock"), lock)
-        res, tools, log_, ok, wall = kani_run(crate, tag, filters=[prefix], features=feats, harness_timeout=ht)
+        # C03 also asks CBMC for leak freedom ("dynamically allocated memory never freed")
+        extra = ["--cbmc-args", "--memory-leak-check"] if prop == "C03" else None
+        res, tools, log_, ok, wall = kani_run(crate, tag, filters=[prefix], features=feats, harness_timeout=ht, extra_args=extra)
         out["wall"] += wall
         out["tools"] = tools or out["tools"]
         if not ok:
